@@ -274,6 +274,71 @@ NESTED_NAMES = ["inner.zip", "inner.ZIP", "inner.zip.br", "inner.tar.br", "inner
                 "inner.tgz", "inner.jar", "inner.docx", "inner.bin", "inner"]
 
 
+def cfb_small(stream_name: str, payload: bytes, *, num_difat=0, first_difat=0xFFFFFFFE, num_minifat=1, first_minifat=2,
+              fat_variant="ok", minifat_variant="ok", in_mini=True) -> bytes:
+    """A four-sector OLE2 container written from scratch (FAT, directory, mini FAT, mini stream container) whose one
+    stream lives in the MINI stream (or, with in_mini=False, in a regular sector), with selectable header
+    inconsistencies and allocation-table chains: well-formed, self-loops, two-cycles, all-zero tables."""
+    END, FREE, FATS, NOS = 0xFFFFFFFE, 0xFFFFFFFF, 0xFFFFFFFD, 0xFFFFFFFF
+
+    def dent(name, etype, child, start, size):
+        raw = name.encode("utf-16-le") + b"\0\0"
+        e = raw.ljust(64, b"\0") + struct.pack("<H", len(raw) if name else 0) + struct.pack("<BB", etype, 1)
+        e += struct.pack("<III", NOS, NOS, child) + b"\0" * 16 + struct.pack("<I", 0) + b"\0" * 16 + struct.pack("<IQ", start, size)
+        return e
+    header = b"\xd0\xcf\x11\xe0\xa1\xb1\x1a\xe1" + b"\0" * 16 + struct.pack("<HHHHH", 0x3E, 3, 0xFFFE, 9, 6) + b"\0" * 6
+    header += struct.pack("<IIIIIIIII", 0, 1, 1, 0, 4096, first_minifat, num_minifat, first_difat, num_difat)
+    header += struct.pack("<109I", 0, *([FREE] * 108))
+    fat = [FATS, END, END, END, END] + [FREE] * 123
+    if fat_variant == "dir-self-loop":
+        fat[1] = 1
+    elif fat_variant == "container-self-loop":
+        fat[3] = 3
+    elif fat_variant == "all-zero":
+        fat = [0] * 128
+    elif fat_variant == "two-cycle":
+        fat[3], fat[4] = 4, 3
+    payload = payload[:448]
+    n_mini = max(1, (len(payload) + 63) // 64)
+    mini = [i + 1 for i in range(n_mini - 1)] + [END] + [FREE] * (128 - n_mini)
+    if minifat_variant == "all-zero":
+        mini = [0] * 128
+    elif minifat_variant == "two-cycle":
+        mini[0], mini[1] = 1, 0
+    elif minifat_variant == "self-loop-last":
+        mini[n_mini - 1] = n_mini - 1
+    elif minifat_variant == "points-outside":
+        mini[0] = 100000
+    if in_mini:
+        d = dent("Root Entry", 5, 1, 3, 512) + dent(stream_name, 2, NOS, 0, len(payload)) + dent("", 0, NOS, 0, 0) + dent("", 0, NOS, 0, 0)
+        container = payload.ljust(512, b"\0")
+    else:
+        d = dent("Root Entry", 5, 1, END, 0) + dent(stream_name, 2, NOS, 3, 4096) + dent("", 0, NOS, 0, 0) + dent("", 0, NOS, 0, 0)
+        container = payload.ljust(512, b"\0")
+    return header + struct.pack("<128I", *fat) + d + struct.pack("<128I", *mini) + container + b"\0" * 512
+
+
+def hostile_cfb_grid(kind: str, quick: bool):
+    stream, payload = {"xls": ("Workbook", struct.pack("<HHHHHHII", 0x0809, 16, 0x0600, 5, 0, 0, 0, 0)),
+                       "doc": ("WordDocument", struct.pack("<HH", 0xA5EC, 0x00C1) + bytes(200)),
+                       "ppt": ("PowerPoint Document", struct.pack("<HHI", 0x000F, 1000, 0) + bytes(100))}[kind]
+    out = []
+    fats = ["ok", "dir-self-loop", "container-self-loop", "all-zero", "two-cycle"]
+    minis = ["ok", "all-zero", "two-cycle", "self-loop-last", "points-outside"]
+    heads = [dict(), dict(num_difat=1), dict(first_difat=0), dict(num_minifat=0), dict(num_minifat=5), dict(first_minifat=0xFFFFFFFE),
+             dict(num_difat=1, first_difat=0)]
+    for hi, h in enumerate(heads):
+        for fv in fats:
+            for mv in minis:
+                if quick and (hi + fats.index(fv) + minis.index(mv)) % 2 and not (h.get("num_difat") == 1 and mv == "all-zero"):
+                    continue
+                for in_mini in ((True, False) if (fv == "ok" or not quick) else (True,)):
+                    label = f"{kind}:{'+'.join(f'{k}={v}' for k, v in h.items()) or 'plain-header'}:fat={fv}:minifat={mv}:{'mini' if in_mini else 'regular'}"
+                    out.append((f"hostile-ole-container:{kind}", f"x.{kind}", cfb_small(stream, payload, fat_variant=fv, minifat_variant=mv, in_mini=in_mini, **h),
+                                f"{kind.upper()}: 2.5 KB OLE2 container written from scratch ({label})"))
+    return out
+
+
 def all_amplifiers(quick: bool):
     out = [xlsx_declared_dimension(), xlsx_far_cell(1048576 if not quick else 300000), xlsx_far_column(), docx_entities(),
            docx_deep(200 if quick else 2000), docx_deep(40), odt_deep(200 if quick else 2000), odt_deep(40),
@@ -289,6 +354,8 @@ def all_amplifiers(quick: bool):
                 pass
     for nm in (NESTED_NAMES[:7] if quick else NESTED_NAMES):
         out.append(nested_archives(nm, 6, 5 if quick else 6))
+    for k in (("xls",) if quick else ("xls", "doc", "ppt")):
+        out += hostile_cfb_grid(k, quick)
     for k in ("doc", "ppt", "xls"):
         a = ole_property_vector(k)
         if a:
